@@ -16,7 +16,7 @@ THEOREMS = ["Ztr.Bracket.C18_restored_all", "Ztr.Bracket.C18_restored", "Ztr.Bra
             "Ztr.Bracket.C18_D21_witness"]
 RULE = ("every subset of {--gc 700 [10 [10]], -G DEBUG_*, --coverage, --profile cProfile, --buffer} (2^5, sampled in the "
         "quick tier) x endings {all pass, failing tests, -x, exception from a layer's testSetUp hook, KeyboardInterrupt "
-        "in a test}; each case runs the real run_internal in a fresh worker process and snapshots gc thresholds/debug "
+        "in a test, exception from a layer's testTearDown hook after a skipped / failed / interrupted / failed-then-skipped test}; each case runs the real run_internal in a fresh worker process and snapshots gc thresholds/debug "
         "flags, traceback.format_exception/print_exception, sys.gettrace/threading.gettrace/sys.settrace, "
         "sys.getprofile, warnings.filters, sys.stdout/sys.stderr before and after. Non-trivial = at least two options; "
         "distinct by (options, ending)")
@@ -26,7 +26,8 @@ ASSUMPTIONS = ["exceptions raised by a feature's own global_setup (before the tr
 TRUSTED = ["CPython gc / sys / threading / warnings / traceback module attributes (snapshotted, not modelled further)"]
 
 OPTS = ["gc", "gcopt", "coverage", "profile", "buffer"]
-ENDINGS = ["pass", "fail", "stop", "hook-raises", "interrupt"]
+ENDINGS = ["pass", "fail", "stop", "hook-raises", "interrupt", "ttd-raises-skip", "ttd-raises-fail", "ttd-raises-interrupt",
+           "ttd-raises-failskip"]
 FIELDS = ["gcThr", "gcDbg", "tbFormat", "tbPrint", "trace", "thrTrace", "setTrace", "profile", "warn", "stdout", "stderr"]
 
 
@@ -34,14 +35,22 @@ def make_world(ctx, ending, idx):
     import random
     rng = random.Random(idx)
     kinds = {"pass": ["pass"], "fail": ["pass", "fail", "error"], "stop": ["fail", "pass"],
-             "hook-raises": ["pass"], "interrupt": ["pass"]}[ending]
+             "hook-raises": ["pass"], "interrupt": ["pass"], "ttd-raises-skip": ["skipBody"],
+             "ttd-raises-fail": ["fail", "subFail2"], "ttd-raises-interrupt": ["pass"],
+             "ttd-raises-failskip": ["subFailThenSkip", "failThenSkipTearDown"]}[ending]
     w = worlds.gen_world(rng, n_layers=2, tests_per_layer=(1, 2), kinds=kinds, p_fault=0.0, p_write=0.3)
     if ending == "hook-raises":
         for l in w["layers"]:
             if l["kind"] != "unit":
                 l["testSetUp"] = True
                 l["testSetUpRaises"] = True
-    if ending == "interrupt" and w["tests"]:
+    if ending.startswith("ttd-raises"):
+        # the per-test tear-down hook of the layer raises after a test that skipped / failed / was interrupted
+        for l in w["layers"]:
+            if l["kind"] != "unit":
+                l["testTearDown"] = True
+                l["testTearDownRaises"] = True
+    if ending in ("interrupt", "ttd-raises-interrupt") and w["tests"]:
         w["tests"][-1]["body"]["exc"] = "interrupt"
     d = os.path.join(ctx.tmp, "g%04d" % idx)
     worlds.materialize(w, d)
